@@ -81,6 +81,18 @@ def getS1 (j : Json) : R (Py S1Tm) := do
       | some p => do let p ← p; pure (some p)
     S1Tm.new apid sub ts p count ver tref dst)
 
+/-- the harness op decodes the packed report back with the widths of its own fields (1 for absent
+    ones, as `UnpackParams` defaults): mirror that, so that both sides refuse the same inputs -/
+def decodeBack (s : S1Tm) (raw : Bytes) : Py Unit := do
+  let sb ← match s.params.stepId with
+    | none => pure 1
+    | some f => f.len
+  let eb ← match s.params.failure with
+    | none => pure 1
+    | some f => f.code.len
+  let _ ← S1Tm.unpack raw s.tm.sec.timestamp.length sb eb
+  pure ()
+
 def packedJ (r : Bytes × S1Tm) : Json := obj [("raw", jh r.1), ("s1", s1J r.2), ("src", jh r.2.tm.sourceData)]
 
 def ops : List (String × Handler) := [
@@ -132,8 +144,16 @@ def ops : List (String × Handler) := [
         let f ← match fail with
           | none => pure none
           | some f => do let f ← f; pure (some f)
+        -- the helper selected by the subservice takes only the arguments of its signature
+        let (s, f) ← match sub with
+          | 1 | 3 | 7 => pure (none, none)
+          | 2 | 4 | 8 => pure (none, f)
+          | 5 => pure (s, none)
+          | 6 => pure (s, f)
+          | _ => throw Err.value
         let r ← create sub apid { tc.sph with version := tcVer } s f ts
         let raw ← r.pack
+        decodeBack r raw
         pure (raw, r)))),
   ("s1_from_tm", fun j => do
       let raw ← getHex j "raw"
@@ -170,6 +190,7 @@ def ops : List (String × Handler) := [
         (do let p ← vp
             let s ← S1Tm.new apid sub ts (some p) count ver tref dst
             let raw ← s.pack
+            decodeBack s raw
             pure (raw, s)))),
   ("s1_unpack", fun j => do
       pure (res s1J (S1Tm.unpack (← getHex j "raw") (← getNat j "ts_len") (← getNat j "step_bytes") (← getNat j "err_bytes"))))
